@@ -7,3 +7,10 @@ import IrisVerif.Props.C05
 import IrisVerif.Props.C02
 import IrisVerif.Props.C07
 import IrisVerif.Props.C17
+import IrisVerif.Props.C03
+import IrisVerif.Props.C08
+import IrisVerif.Props.C10
+import IrisVerif.Props.C12
+import IrisVerif.Props.C16
+import IrisVerif.Props.C19
+import IrisVerif.Props.C20
